@@ -47,7 +47,7 @@ enum {
     F_SCRIPT_NOW, F_SCRIPT_PAST, F_SCRIPT_CURRENT, F_SCRIPT_FUTURE, F_RESCHED_SELF, F_CANCEL_IN_BATCH, F_CANCEL_ASAP,
     F_CANCEL_TIMED, F_NESTED_CANCEL, F_EQUAL_TIMES, F_TIME_MAX, F_TIMED_ZERO, F_CLEANUP_PENDING, F_CLEANUP_LOOPED,
     F_RUN_BACKWARDS, F_NOT_DUE_LEFT, F_HEAP_GREW, F_MIXED_BATCH, F_SELF_CANCEL, F_CANCEL_NEW_IN_BATCH, F_JUST_EARLY,
-    F_EXACTLY_DUE, F_TOP_CANCEL, F_RUN_EMPTY, F_CANCEL_UNSCHEDULED, F_CANCEL_UNSCHEDULED_HEAP, F_CLEANUP_CHAIN_17
+    F_EXACTLY_DUE, F_TOP_CANCEL, F_RUN_EMPTY, F_CANCEL_UNSCHEDULED, F_CANCEL_UNSCHEDULED_HEAP, F_CLEANUP_CHAIN_17, F_DIRTY_NODE
 };
 
 struct slot {
@@ -302,6 +302,17 @@ static int do_schedule(int si, struct aws_task *task, bool now, uint64_t t, int 
         task = malloc(sizeof(struct aws_task));
         memset(task, 0xA5, sizeof(*task));
         aws_task_init(task, task_fn, sl, "c07");
+        if (mon_chance(&mon_case_rng, 1, 4)) {
+            /* the task comes from a caller-side hand-over list that was drained by walking it and re-initialising its head:
+             * task->node still carries links (to the caller's list head). The scheduler owns the node from here on and
+             * must not take those links for its own. */
+            static struct aws_linked_list s_handover[MAX_SLOTS];
+            struct aws_linked_list *hl = &s_handover[si];
+            aws_linked_list_init(hl);
+            aws_linked_list_push_back(hl, &task->node);
+            aws_linked_list_init(hl);
+            mon_flag(F_DIRTY_NODE);
+        }
     }
     int ii = new_inc(si, now, t, gen, from_script);
     sl->task = task;
@@ -1164,7 +1175,8 @@ int main(int argc, char **argv) {
         "run_all_left_not_due_tasks", "heap_grew_beyond_default", "batch_with_run_now_and_timed", "task_cancels_its_own_reschedule",
         "cancel_of_task_scheduled_during_batch", "task_due_one_tick_after_run_all_time", "task_due_exactly_at_run_all_time",
         "top_level_cancel", "run_all_with_nothing_due", "cancel_of_never_scheduled_task",
-        "cancel_of_never_scheduled_task_while_heap_nonempty", "clean_up_unwound_chain_of_17_or_more_generations"};
+        "cancel_of_never_scheduled_task_while_heap_nonempty", "clean_up_unwound_chain_of_17_or_more_generations",
+        "task_node_carried_stale_links_when_scheduled"};
     for (int i = 0; i < (int)(sizeof(names) / sizeof(names[0])); ++i) {
         mon_flag_name(i, names[i]);
     }
